@@ -51,6 +51,8 @@ class Char:
         self.blank = blank
         self.allowed = allowed
         self.label = label
+        self.code = Sym("code(%s)" % label)  # what ord() gives: a number known through its order to the allowed limits
+        self.code.char = self
 
     def __repr__(self):
         return self.label
@@ -75,24 +77,52 @@ def validated_run(model, ch, cls_qualname=BASE):
     kind, char_kinds = CELL_SHAPES[shape]
     has_allowed_characters = ch.choose("allowed characters", ["none", "range"])
     chars = []
+    # the allowed characters are a range of two items with a gap, a0..b0 and a1..b1: a character that is not allowed lies
+    # below, above or IN THE GAP (so comparing with the overall limits only is not enough)
+    limits = [Sym("a0"), Sym("b0"), Sym("a1"), Sym("b1")]
+    if has_allowed_characters == "range":
+        interp.order.declare(("s", "a0"), "<=", ("s", "b0"))
+        interp.order.declare(("s", "b0"), "<", ("s", "a1"))
+        interp.order.declare(("s", "a1"), "<=", ("s", "b1"))
     for index, char_kind in enumerate(char_kinds):
         allowed = True
+        label = "%s%d" % (char_kind, index)
+        char = Char(char_kind == "blank", True, label)
         if has_allowed_characters == "range":
             allowed = ch.choose(("character %d allowed" % index), [True, False])
-        chars.append(Char(char_kind == "blank", allowed, "%s%d" % (char_kind, index)))
+            code = ("s", char.code.key())
+            if allowed:
+                interp.order.declare(("s", "a0"), "<=", code)
+                interp.order.declare(code, "<=", ("s", "b0"))
+            else:
+                place = ch.choose(("character %d lies" % index), ["below", "in the gap", "above"])
+                if place == "below":
+                    interp.order.declare(code, "<", ("s", "a0"))
+                elif place == "above":
+                    interp.order.declare(code, ">", ("s", "b1"))
+                else:
+                    interp.order.declare(code, ">", ("s", "b0"))
+                    interp.order.declare(code, "<", ("s", "a1"))
+        char.allowed = allowed
+        chars.append(char)
     value = AText(kind, "cell", chars=chars)
     events = interp.events
 
     @stub
     def allowed_validate(interp_, args, kwargs):
         name, code = args[0], args[1]
-        interp_.event("character-check", code.label if isinstance(code, Char) else repr(code), None)
-        if isinstance(code, Char) and not code.allowed:
+        char = getattr(code, "char", None)
+        interp_.event("character-check", char.label if char is not None else repr(code), None)
+        if char is None:
+            raise Undecided("allowed characters asked about %r" % (code,))
+        if not char.allowed:
             interp_.raise_("cutplace.errors.RangeValueError", Opaque("str", True, ["<character not allowed>"]))
 
     allowed_range = None
     if has_allowed_characters == "range":
-        allowed_range = Obj(model.cls("cutplace.ranges.Range"), {"validate": allowed_validate}, label="allowed_characters")
+        allowed_range = Obj(model.cls("cutplace.ranges.Range"), {
+            "validate": allowed_validate, "_items": [(limits[0], limits[1]), (limits[2], limits[3])], "_lower_limit": limits[0],
+            "_upper_limit": limits[3], "_description": "allowed characters"}, label="allowed_characters")
 
     length_verdict = {}
 
@@ -135,7 +165,7 @@ def validated_run(model, ch, cls_qualname=BASE):
     field.attrs["validated_value"] = hook
 
     def ord_hook(interp_, args, kwargs):
-        return args[0] if isinstance(args[0], Char) else (_ for _ in ()).throw(Undecided("ord(%r)" % (args[0],)))
+        return args[0].code if isinstance(args[0], Char) else (_ for _ in ()).throw(Undecided("ord(%r)" % (args[0],)))
 
     interp.externals["ord"] = ord_hook
     interp.externals["text_len"] = lambda i, a, k: len(a[0].chars)
@@ -369,4 +399,13 @@ def rule_ods_cell_texts(ctx):
 
 from .common import rule_module_state  # noqa: E402
 
-RULES = [rule_template_integrity, rule_validated, rule_guard_state, rule_characters, rule_ods_cell_texts, rule_module_state]
+def rule_every_cell_reaches_its_field(ctx):
+    """O3.7: the guards sit in the field's validated(); validate_row must hand EVERY cell of a row to the validated() of its
+    field - also for a Text field that may be empty and has neither length nor rule (the allowed characters still apply)."""
+    from . import protocol
+
+    ctx.res.minimum("O3.7", 1)
+    protocol.validate_row_table(ctx, "O3.7", aspects=())
+
+
+RULES = [rule_template_integrity, rule_validated, rule_guard_state, rule_characters, rule_ods_cell_texts, rule_every_cell_reaches_its_field, rule_module_state]
